@@ -21,8 +21,8 @@ RULE = ("history = one model (kind x feature mix x bounds x output calibration x
         "set_weights(get_weights()) round trip; every state is judged on the full product grid and on a missing-value copy; "
         "non-trivial state = grid output range > 1e-3 (a collapsed model is trivially monotone); distinct by digest of (model description, step, weights)")
 MIN_EVENTS = {
-    "quick": {"state/monotone-on-grid": 60, "state/bounded-on-grid": 50, "state/finite": 60},
-    "thorough": {"state/monotone-on-grid": 4000, "state/bounded-on-grid": 3000, "state/finite": 6000},
+    "quick": {"state/missing-output-in-calibrator-bounds": 30, "state/monotone-on-grid": 60, "state/bounded-on-grid": 50, "state/finite": 60},
+    "thorough": {"state/missing-output-in-calibrator-bounds": 1440, "state/monotone-on-grid": 4000, "state/bounded-on-grid": 3000, "state/finite": 6000},
 }
 ASSUMPTIONS = [
     "tol = 1e-5*max(1,|grid outputs|); histories whose weights leave the finite float32 range are cut (overflow: inconclusive for that history, never a violation)",
